@@ -119,6 +119,9 @@ def observe_raw(r):
     return o
 
 
+IDTYPE = "int64"   # numpy index type of the current case (int64 / int32 / uint8 / pyint = numpy scalars inside a list)
+
+
 def conv_rows(rows, route):
     import numpy as np
     if route in ("list", "append"):
@@ -126,7 +129,14 @@ def conv_rows(rows, route):
     if route == "tuple":
         return [tuple(r) for r in rows]
     if route == "numpy":
-        return [np.array(r, dtype=np.int64) for r in rows]
+        if IDTYPE == "pyint":   # a plain list whose items are numpy scalars of several integer types
+            kinds = [np.int64, np.int32, np.uint16, np.int16]
+            return [[kinds[(i + j) % 4](x) if -30000 < x < 30000 and (x >= 0 or (i + j) % 4 != 2) else np.int64(x)
+                     for j, x in enumerate(r)] for i, r in enumerate(rows)]
+        dt = {"int64": np.int64, "int32": np.int32, "uint8": np.uint8}[IDTYPE]
+        if dt is np.uint8 and any(not (0 <= x < 256) for r in rows for x in r):
+            dt = np.int64
+        return [np.array(r, dtype=dt) for r in rows]
     raise ValueError(route)
 
 
@@ -139,25 +149,40 @@ def conv_vertex(v, route, vints):
     return np.array(c, dtype=float) if route == "numpy" else tuple(c) if route == "tuple" else c
 
 
-def build_raw(case, route):
+def peek(raw):
+    """read the public properties of the raw data (must not influence what is built later)"""
+    return [raw.dimensionality, len(raw.id_vertices), len(raw.id_edges), len(raw.id_faces), len(raw.id_cells),
+            len(raw.id_facecorners), len(raw.id_cellcorners), raw.vertices.empty(), raw.edges.size, len(raw.faces)]
+
+
+def new_raw(callform):
     from mouette.mesh.mesh_data import RawMeshData
-    r = RawMeshData()
+    return [RawMeshData, lambda: RawMeshData(None), lambda: RawMeshData(mesh=None)][callform % 3]()
+
+
+def build_raw(case, route, keep=None):
+    """fills a fresh RawMeshData group by group (vertices, edges + attributes, faces, cells), reading its public properties
+    after `case["peek"]` groups; `keep` receives the very objects handed to the containers"""
+    r = new_raw(case.get("callform", 0))
+    pk = case.get("peek")
     vs = [conv_vertex(v, route, case.get("vints")) for v in case["verts"]]
     E, F, C = (conv_rows(case[k], route) for k in ("edges", "faces", "cells"))
+    if keep is not None:
+        keep.update(vs=vs, E=E, F=F, C=C)
+    if pk == 0:
+        peek(r)
     if route == "append":
         for v in vs:
             r.vertices.append(v)
-        for e in E:
-            r.edges.append(e)
-        for f in F:
-            r.faces.append(f)
-        for c in C:
-            r.cells.append(c)
     else:
         r.vertices += vs
+    if pk == 1:
+        peek(r)
+    if route == "append":
+        for e in E:
+            r.edges.append(e)
+    else:
         r.edges += E
-        r.faces += F
-        r.cells += C
     for a in case.get("eattrs", []):
         ty = {"int": int, "bool": bool}[a["type"]]
         cv = (lambda x: bool(x)) if ty is bool else (lambda x: int(x))
@@ -170,7 +195,77 @@ def build_raw(case, route):
             at = r.edges.create_attribute(a["name"], ty, default_value=dv)
             for i, v in a["set"]:
                 at[i] = cv(v)
+    if pk == 2:
+        peek(r)
+    if route == "append":
+        for f in F:
+            r.faces.append(f)
+    else:
+        r.faces += F
+    if pk == 3:
+        peek(r)
+    if route == "append":
+        for c in C:
+            r.cells.append(c)
+    else:
+        r.cells += C
+    if pk == 4:
+        peek(r)
     return r
+
+
+def instantiate(raw, dim, case):
+    """the build, in one of the accepted call forms"""
+    import numpy as np
+    import mouette as M
+    from mouette.mesh.mesh import _instanciate_raw_mesh_data
+    for _ in range(int(case.get("prep_calls", 0))):
+        raw.prepare()
+    if dim is not None and case.get("dimrepr"):
+        dim = np.int64(dim)
+    cf = case.get("callform", 0) % 4
+    if cf == 1:
+        return _instanciate_raw_mesh_data(mesh_data=raw, dim=dim)
+    if cf == 2 and dim is None:
+        return _instanciate_raw_mesh_data(raw)
+    if cf == 3:
+        raw.prepare()
+        d = max(-1 if dim is None else int(dim), raw.dimensionality)
+        if 0 <= d <= 3:
+            return [M.mesh.PointCloud, M.mesh.PolyLine, M.mesh.SurfaceMesh, M.mesh.VolumeMesh][d](raw)
+    return _instanciate_raw_mesh_data(raw, dim)
+
+
+def disturb(keep):
+    """mutate, in place, every object that was handed to the containers (the built mesh must not notice)"""
+    import numpy as np
+    for v in keep.get("vs", []):
+        if isinstance(v, (list, np.ndarray)) and len(v):
+            v[0] = v[0] + 1
+    for k in ("E", "F", "C"):
+        for r in keep.get(k, []):
+            if isinstance(r, (list, np.ndarray)) and len(r):
+                r[0] = r[0] + 1
+    for k in ("V", "Ea", "Fa", "Ca"):
+        a = keep.get(k)
+        if a is not None and a.size:
+            a.flat[0] = a.flat[0] + 1
+
+
+def spoil(m):
+    """mutate a twin mesh in place as hard as the public containers allow"""
+    import mouette as M
+    if len(m.vertices):
+        m.vertices[0] += 1.0
+    m.vertices.append(M.Vec(9., 9., 9.))
+    for k in ("edges", "faces", "cells"):
+        if hasattr(m, k):
+            getattr(m, k).append((0, 0, 0, 0) if k == "cells" else (0, 0) if k == "edges" else (0, 0, 0))
+    for k in ("face_corners", "cell_corners", "cell_faces"):
+        if hasattr(m, k):
+            getattr(m, k).append(5, 5)
+    if hasattr(m, "edges") and m.edges.has_attribute("hard_edges"):
+        m.edges.get_attribute("hard_edges")[0] = True
 
 
 def fmt(x):
@@ -202,6 +297,9 @@ def apply_edit(raw, e, route):
     ["add_vertex", [x,y,z] (quarter units)] | ["add_edge"|"add_face"|"add_cell", row] |
     ["set_face"|"set_cell", i, row] (index i mod len) | ["pop_face"|"pop_cell"]"""
     k = e[0]
+    if k == "peek":
+        peek(raw)
+        return
     cont = {"fc": "face_corners", "cc": "cell_corners", "cf": "cell_faces", "edges": "edges", "faces": "faces",
             "cells": "cells", "edge": "edges", "face": "faces", "cell": "cells"}
     if k.startswith("clear_"):
@@ -361,19 +459,51 @@ def run_script(m, script):
     return obs
 
 
+def from_arrays_call(case, keep=None):
+    import numpy as np
+    import mouette as M
+    w = len(case["verts"][0]) if case["verts"] else 3
+    dt = np.int64 if case.get("vints") and all(x % 4 == 0 for v in case["verts"] for x in v) else float
+    V = (np.array(case["verts"], dtype=float) / 4.0).astype(dt).reshape(len(case["verts"]), w)
+    idt = {"int64": np.int64, "int32": np.int32, "uint8": np.uint8, "pyint": np.int64}[IDTYPE]
+    if idt is np.uint8 and any(not (0 <= x < 256) for k in ("edges", "faces", "cells") for r in case[k] for x in r):
+        idt = np.int64
+    arr = {k: (np.array(case[n], dtype=idt) if case[n] else None) for k, n in (("E", "edges"), ("F", "faces"), ("C", "cells"))}
+    if keep is not None:
+        keep.update(V=V, Ea=arr["E"], Fa=arr["F"], Ca=arr["C"])
+    cf = case.get("callform", 0) % 3
+    if cf == 0:      # absent arrays omitted
+        return M.mesh.from_arrays(V, **{k: a for k, a in arr.items() if a is not None})
+    if cf == 1:      # every optional argument passed explicitly (None when absent), by keyword
+        return M.mesh.from_arrays(V=V, E=arr["E"], F=arr["F"], C=arr["C"], raw=False)
+    return M.mesh.from_arrays(V, arr["E"], arr["F"], arr["C"])   # positionally
+
+
 def run_route(case, route):
+    global IDTYPE
     import numpy as np
     import mouette as M
     from mouette.mesh.mesh_data import RawMeshData
     from mouette.mesh.mesh import _instanciate_raw_mesh_data
-    M.config.complete_faces_from_cells = bool(case["cfg"][0])
-    M.config.complete_edges_from_faces = bool(case["cfg"][1])
+    rep = [bool, int, np.bool_][case.get("cfgrepr", 0) % 3]   # the switches are read at run time, in any truthy form
+    M.config.complete_faces_from_cells = rep(case["cfg"][0])
+    M.config.complete_edges_from_faces = rep(case["cfg"][1])
     M.config.sort_neighborhoods = True
+    IDTYPE = case.get("idtype", "int64")
     stages = []
     m = None
+    raw = None
     res = {}
     rows_route = route if route in ("list", "tuple", "numpy", "append") else "list"
     dim = None if route == "from_arrays" else case.get("dim")
+    keep = {}
+
+    def build_first():
+        if route == "from_arrays":
+            return None, from_arrays_call(case, keep)
+        r0 = build_raw(case, route, keep)
+        return r0, None
+
     if route.startswith("file2d_") or route.startswith("save_"):
         ext = route.split("_", 1)[1]
         fd, path = tempfile.mkstemp(suffix="." + ext)
@@ -395,42 +525,51 @@ def run_route(case, route):
             except OSError:
                 pass
         try:
-            m = _instanciate_raw_mesh_data(raw, dim)
+            m = instantiate(raw, dim, case)
             stages.append(observe(m))
         except Exception as ex:
+            m = None
             stages.append({"err": type(ex).__name__, "msg": str(ex)[:120]})
-            return dict(res, stages=stages, script=[])
     else:
         try:
-            if route == "from_arrays":
-                w = len(case["verts"][0]) if case["verts"] else 3
-                dt = np.int64 if case.get("vints") and all(x % 4 == 0 for v in case["verts"] for x in v) else float
-                V = (np.array(case["verts"], dtype=float) / 4.0).astype(dt).reshape(len(case["verts"]), w)
-                kw = {}
-                if case["edges"]:
-                    kw["E"] = np.array(case["edges"], dtype=np.int64)
-                if case["faces"]:
-                    kw["F"] = np.array(case["faces"], dtype=np.int64)
-                if case["cells"]:
-                    kw["C"] = np.array(case["cells"], dtype=np.int64)
-                m = M.mesh.from_arrays(V, **kw)
-            else:
-                m = _instanciate_raw_mesh_data(build_raw(case, route), dim)
-            stages.append(observe(m))
+            raw, m = build_first()
+            if m is None:
+                m = instantiate(raw, dim, case)
+            o = observe(m)
+            if case.get("twin"):
+                # (a) the caller's objects are mutated after the build; (b) a second mesh is built from equal arguments and
+                #     spoiled in place: the first mesh must read exactly as before
+                disturb(keep)
+                o["alias_ok"] = json.dumps(observe(m), sort_keys=True) == json.dumps(o, sort_keys=True)
+                raw2, m2 = build_first()
+                if m2 is None:
+                    m2 = instantiate(raw2, dim, case)
+                o2 = observe(m2)
+                spoil(m2)
+                o["twin_ok"] = (json.dumps(o2, sort_keys=True) == json.dumps({k: v for k, v in o.items() if k not in ("alias_ok", "twin_ok")}, sort_keys=True)
+                                and json.dumps(observe(m), sort_keys=True) == json.dumps(o2, sort_keys=True))
+            stages.append(o)
         except Exception as ex:
+            m = None
             stages.append({"err": type(ex).__name__, "msg": str(ex)[:120]})
-            return {"stages": stages, "script": []}
     edits = case.get("edits") or []
     for k in range(int(case.get("rewraps", 0))):
+        if m is None and (raw is None or stages[-1].get("err") != "KeyError"):
+            break        # nothing to build again from (from_arrays raised, or an unexpected exception)
         try:
-            raw = RawMeshData(m)
+            if m is not None:
+                raw = RawMeshData(m)
+            # else: the construction raised (a cell's face was missing): the SAME raw data object is edited and built again
+            m = None
             for e in (edits[k] if k < len(edits) else []):
                 apply_edit(raw, e, rows_route)
-            m = _instanciate_raw_mesh_data(raw, dim)
+            m = instantiate(raw, dim, case)
             stages.append(observe(m))
         except Exception as ex:
+            m = None
             stages.append({"err": type(ex).__name__, "msg": str(ex)[:120]})
-            return dict(res, stages=stages, script=[])
+    if m is None:
+        return dict(res, stages=stages, script=[])
     script = case.get("script", [])
     if "input" in res:   # a file may give another class than the raw data (cells lost in .obj, ...): container-level ops only
         script = [q for q in script if q[0] in FILE_OPS]
